@@ -276,7 +276,7 @@ def op_ladder(job):
     ev = {"tid": job["tid"], "ev": "Ladder", "cls": cls, "q": fvec(q),
           "sigma": fvec(job["sigma"]) if cls == "pinhole" else [],
           "L": fstr(job.get("L", 0.0)), "W": fstr(job.get("W", 0.0)),
-          "coef": fvec(job["coef"]), "raised": False, "error": "", "rungs": []}
+          "coef": fvec(job["coef"]), "raised": False, "error": "", "rungs": [], "supplied": True}
     try:
         for rung in job["rungs"]:
             qc = uniform_grid(rung["lo"], rung["hi"], rung["h"], rung["off"])
@@ -296,6 +296,32 @@ def op_ladder(job):
         ev["error"] = err_text(ex)
         ev["where"] = traceback.format_exc()[-600:]
     emit(ev)
+
+
+def op_ladder_default(job):
+    """Dense data grids (spacing h, h/2, h/4) smeared on the grid the library builds itself (q_calc=None); the
+    widths are not monotone (merged instrument configurations).  One single-rung Ladder event per grid."""
+    from sasmodels import resolution
+    for k, rung in enumerate(job["rungs"]):
+        h = rung["h"]
+        n = int(round((job["hi"] - job["lo"]) / h)) + 1
+        q = job["lo"] + h * np.arange(n)
+        sigma = np.where((np.arange(n) * h >= job["wide"][0] * (job["hi"] - job["lo"]))
+                         & (np.arange(n) * h <= job["wide"][1] * (job["hi"] - job["lo"])), job["s2"], job["s1"])
+        ev = {"tid": job["tid"] * 10 + k, "ev": "Ladder", "cls": "pinhole", "q": fvec(q), "sigma": fvec(sigma),
+              "L": "0.0", "W": "0.0", "coef": fvec(job["coef"]), "raised": False, "error": "", "rungs": [],
+              "supplied": False}
+        try:
+            res = resolution.Pinhole1D(q, sigma)
+            theory = poly(job["coef"], np.asarray(res.q_calc, dtype="d"))
+            out = res.apply(theory)
+            g = np.sort(np.asarray(res.q_calc, dtype="d"))
+            ev["rungs"].append({"h": fstr(h), "ncalc": int(len(g)), "first": fstr(g[0]), "last": fstr(g[-1]),
+                                "maxstep": fstr(np.max(np.diff(g))), "out": fvec(out)})
+        except Exception as ex:
+            ev["raised"] = True
+            ev["error"] = err_text(ex)
+        emit(ev)
 
 
 def op_ladder2d(job):
@@ -320,7 +346,7 @@ def op_ladder2d(job):
 
 
 OPS = {"res1d": op_res1d, "res2d": op_res2d, "direct": op_direct, "ladder": op_ladder,
-       "ladder2d": op_ladder2d}
+       "ladder2d": op_ladder2d, "ladder_default": op_ladder_default}
 
 
 def main():
